@@ -678,7 +678,7 @@ func init() {
 			return tuple{0, iface{}}, true
 		}
 	}
-	for _, n := range []string{"log.Printf", "log.Println", "log.Print"} {
+	for _, n := range []string{"log.Printf", "log.Println", "log.Print", "log.SetFlags", "log.SetPrefix", "log.SetOutput", "(*log.Logger).SetFlags", "(*log.Logger).Printf", "(*log.Logger).Println", "(*log.Logger).Print"} {
 		externals[n] = noop
 	}
 	externals["os.Getenv"] = func(w *world, _ *frame, _ *ssa.Function, args []value) (value, bool) { return "", true }
